@@ -772,3 +772,130 @@ Definition opt_ntype_eqb (a b : option ntype) : bool :=
   | Some x, Some y => ntype_eqb x y
   | _, _ => false
   end.
+
+(* ------------------------------------------------------------------ *)
+(* 10. The owner OBJECT: bool(instance), and the descriptor protocol    *)
+(* ------------------------------------------------------------------ *)
+
+(* How Python computes bool(obj) of an owner object (component, autonomous
+   mode, robot): type(obj).__bool__(obj) when the class defines it, else
+   type(obj).__len__(obj) != 0 when the class defines that (a container-like
+   component, a subclass of list), else True.  The owner's own state decides
+   the answer and may change at any time (the container fills up, empties). *)
+Inductive truth :=
+| TPlain                       (* neither __bool__ nor __len__: always true *)
+| TLen (n : N)                 (* __len__ returns n                         *)
+| TBool (b : bool).            (* __bool__ returns b                        *)
+
+Definition truth_value (t : truth) : bool :=
+  match t with
+  | TPlain => true
+  | TLen n => negb (N.eqb n 0)
+  | TBool b => b
+  end.
+
+(* an owner object as the descriptor receives it: its identity (the index of
+   its _tunables map in w_inst) and how bool() of it comes out right now *)
+Definition pyobj := (nat * truth)%type.
+
+(* what tunable.__get__ hands back *)
+Inductive getres :=
+| GSelf                        (* the tunable object itself                 *)
+| GResult (e : event).         (* instance._tunables[self].get(): the value,
+                                  or AttributeError / KeyError when unbound *)
+
+(* tunable.__get__(self, instance, owner=None):
+       if instance is not None:
+           return instance._tunables[self].get()
+       return self
+   [instance] is None for access through the class (Cls.attr).  The test is an
+   IDENTITY test: bool(instance) is never evaluated, the second component of
+   the object is not looked at. *)
+Definition tunable_get (w : world) (instance : option pyobj) (attr : string) : getres :=
+  match instance with
+  | Some (i, _) => GResult (py_read w i attr)
+  | None => GSelf
+  end.
+
+(* tunable.__set__(self, instance, value): instance._tunables[self].set(value) *)
+Definition tunable_set (w : world) (instance : pyobj) (attr : string) (v : value)
+  : world * event :=
+  step w (PyWrite (fst instance) attr v).
+
+(* the world with the owners' truthiness: [x_truth] maps an instance to how
+   bool() of it is computed at present (latest entry wins, TPlain if none) *)
+Record xworld := mkx {
+  x_w : world;
+  x_truth : list (nat * truth)
+}.
+
+Fixpoint truth_get (l : list (nat * truth)) (i : nat) : truth :=
+  match l with
+  | [] => TPlain
+  | (j, t) :: r => if Nat.eqb j i then t else truth_get r i
+  end.
+
+Definition the_obj (x : xworld) (i : nat) : pyobj := (i, truth_get (x_truth x) i).
+
+Definition x0 : xworld := mkx w0 [].
+
+(* histories in which the owners' truthiness changes too *)
+Inductive xop :=
+| XOp (o : op)
+| XSetTruth (i : nat) (t : truth).   (* the owner object i is created with /
+                                        its state changes so that bool(i) is t *)
+
+Inductive xevent :=
+| XEv (e : event)
+| XSelf                              (* an attribute read returned the tunable object *)
+| XDone.
+
+Definition getres_event (g : getres) : xevent :=
+  match g with GSelf => XSelf | GResult e => XEv e end.
+
+(* obj.attr    is  type(obj).__dict__[attr].__get__(obj, type(obj)),
+   obj.attr = v is type(obj).__dict__[attr].__set__(obj, v)  (data descriptor) *)
+Definition xstep (x : xworld) (o : xop) : xworld * xevent :=
+  match o with
+  | XOp (PyRead i a) =>
+      (x, getres_event (tunable_get (x_w x) (Some (the_obj x i)) a))
+  | XOp (PyWrite i a v) =>
+      let '(w', e) := tunable_set (x_w x) (the_obj x i) a v in
+      (mkx w' (x_truth x), XEv e)
+  | XOp o' =>
+      let '(w', e) := step (x_w x) o' in
+      (mkx w' (x_truth x), XEv e)
+  | XSetTruth i t => (mkx (x_w x) ((i, t) :: x_truth x), XDone)
+  end.
+
+Fixpoint xrun (x : xworld) (h : list xop) : xworld * list xevent :=
+  match h with
+  | [] => (x, [])
+  | o :: r =>
+      let '(x1, e) := xstep x o in
+      let '(x2, es) := xrun x1 r in
+      (x2, e :: es)
+  end.
+
+(* the same history with every owner an ordinary (always true) object: the
+   truthiness changes are dropped *)
+Fixpoint erase (h : list xop) : list op :=
+  match h with
+  | [] => []
+  | XOp o :: r => o :: erase r
+  | XSetTruth _ _ :: r => erase r
+  end.
+
+(* the events of the operations proper (XDone of a truthiness change dropped);
+   XSelf is kept visible as an error event so it cannot hide *)
+Fixpoint xevents (l : list xevent) : list (option event) :=
+  match l with
+  | [] => []
+  | XEv e :: r => Some e :: xevents r
+  | XSelf :: r => None :: xevents r
+  | XDone :: r => xevents r
+  end.
+
+(* is the owner i falsy right now? *)
+Definition falsy_now (x : xworld) (i : nat) : bool :=
+  negb (truth_value (truth_get (x_truth x) i)).
